@@ -15,7 +15,8 @@ def answer_fn_for(program):
         if pr['mode'] == 'refuse' and state['n'] >= pr['k']:
             return None
         state['n'] += 1
-        return pr['answers'][missing.name()]
+        typ = {'IntegerInput': 'int', 'FloatInput': 'float', 'BooleanInput': 'bool'}[type(missing).__name__]
+        return pr['answers'].get(missing.name(), progs.DEFAULT_ANSWER[typ])
     return fn
 
 
@@ -67,7 +68,7 @@ def check(program, r, m=None):
             out.append(('C01', 'no-abort', f'reference model aborts ({m.get("abort_msg")}) but solve() returned {r.verdict}'))
         return out
     if r.exc is not None:
-        if m['unique'] and not isinstance(r.exc, RecursionError):
+        if m['unique'] and not isinstance(r.exc, (RecursionError, solve.LoopBudgetExceeded, progs.BudgetExceeded)):
             out.append(('C01', 'unexpected-abort:' + type(r.exc).__name__, f'well-formed program but solve() raised {r.exc!r}'))
         return out
 
